@@ -105,12 +105,16 @@ fn corpus_shapes(thorough: bool) -> Vec<(&'static str, Vec<Tree>)> {
     let mut v = vec![
         ("par2x2", vec![leaf(), tr(K::P, vec![reg(), reg()])]),
         ("par2x2-under-compound", vec![leaf(), tr(K::S, vec![tr(K::P, vec![reg(), reg()])])]),
+        // done-ness of parallel states: regions with finals, a parallel directly inside a parallel (whose done-ness
+        // is computed recursively), next to a region that can reach its final
+        ("par-with-finals", vec![leaf(), tr(K::P, vec![tr(K::S, vec![leaf(), fin()]), tr(K::S, vec![leaf(), fin()])])]),
+        ("par-in-par-with-final", vec![leaf(), tr(K::P, vec![tr(K::P, vec![leaf(), leaf()]), tr(K::S, vec![leaf(), fin()])])]),
+        ("final-region-then-par", vec![leaf(), tr(K::P, vec![tr(K::S, vec![leaf(), fin()]), tr(K::P, vec![tr(K::S, vec![leaf(), fin()]), leaf()])])]),
     ];
     if thorough {
         v.push(("par-in-par", vec![leaf(), tr(K::P, vec![reg(), tr(K::P, vec![reg(), reg()])])]));
         v.push(("par3", vec![leaf(), tr(K::P, vec![reg(), reg(), reg()])]));
         v.push(("chain4", vec![leaf(), tr(K::S, vec![tr(K::S, vec![tr(K::S, vec![leaf(), leaf()]), leaf()]), leaf()])]));
-        v.push(("par-with-finals", vec![leaf(), tr(K::P, vec![tr(K::S, vec![leaf(), fin()]), tr(K::S, vec![leaf(), fin()])])]));
         v.push(("compound-regions-deep", vec![leaf(), tr(K::P, vec![tr(K::S, vec![tr(K::S, vec![leaf(), leaf()]), leaf()]), reg()])]));
     }
     v
@@ -610,6 +614,12 @@ fn c08_leaves() -> Vec<(&'static str, Stmt)> {
         ("script-bad", Stmt::Script(Expr::Bad)),
         ("mark-bad-arg", Stmt::MarkE(vec!["arg".into()], Expr::Bad)),
         ("send-internal", Stmt::SendInternal("r2".into())),
+        // syntactically malformed sources (they fail in the parser, not in the evaluator)
+        ("log-bad-syntax", Stmt::Log(Expr::BadSyntax)),
+        ("script-bad-syntax", Stmt::Script(Expr::BadSyntax)),
+        ("send-eventexpr-ok", Stmt::SendInternalExpr(Expr::Str("r4".into()))),
+        ("send-eventexpr-bad", Stmt::SendInternalExpr(Expr::Bad)),
+        ("send-eventexpr-bad-syntax", Stmt::SendInternalExpr(Expr::BadSyntax)),
     ]
 }
 
@@ -1498,6 +1508,19 @@ fn oddities() -> Vec<(&'static str, &'static str, String, &'static str)> {
     c("send-illegal-delay-unit", r##"<send event="x" delayexpr="'5 parsecs'"/>"##, "error.execution");
     c("send-negative-delay", r##"<send event="x" delayexpr="'-5s'"/>"##, "error.execution");
     c("send-huge-delay", r##"<send event="x" id="big" delayexpr="'99999999999999999999d'"/>"##, "");
+    c("send-very-long-delay-d", r##"<send event="x" id="big2" delayexpr="'99999999999999d'"/>"##, "");
+    c("send-very-long-delay-ms", r##"<send event="x" id="big3" delay="9223372036854775807ms"/>"##, "");
+    c("send-very-long-delay-s", r##"<send event="x" id="big4" delay="9223372036854775s"/>"##, "");
+    c("send-very-long-delay-frac", r##"<send event="x" id="big5" delay="1e300s"/>"##, "");
+    // two attributes of one <send> that evaluate to the same stored value
+    c("send-same-var-target-event", r##"<send targetexpr="sv" eventexpr="sv"/>"##, "");
+    c("send-same-var-target-type", r##"<send event="x" targetexpr="sv" typeexpr="sv"/>"##, "");
+    c("send-same-var-target-delay", r##"<send event="x" targetexpr="sv" delayexpr="sv"/>"##, "");
+    c("send-same-var-target-param", r##"<send event="x" targetexpr="sv"><param name="p" expr="sv"/></send>"##, "");
+    c("send-same-var-target-namelist", r##"<send event="x" targetexpr="sv" namelist="sv"/>"##, "");
+    c("send-same-var-target-content", r##"<send event="x" targetexpr="sv"><content expr="sv"/></send>"##, "");
+    c("send-same-var-target-idlocation", r##"<send event="x" targetexpr="sv" idlocation="sv"/>"##, "");
+    c("send-same-var-event-type-delay", r##"<send eventexpr="sv" typeexpr="sv" delayexpr="sv"/>"##, "");
     c("send-bad-namelist", r##"<send event="x" namelist="undefq"/>"##, "error.execution");
     c("send-bad-param-expr", r##"<send event="x"><param name="p" expr="undefq + 1"/></send>"##, "error.execution");
     c("send-bad-param-location", r##"<send event="x"><param name="p" location="undefq"/></send>"##, "error.execution");
@@ -1566,7 +1589,7 @@ fn c12_doc(odd: &[(&str, &str, String, &str)]) -> String {
     }
     format!(
         r##"<scxml {ns} {attr} name="odd">
-<datamodel><data id="v" expr="0"/>{data}</datamodel>
+<datamodel><data id="v" expr="0"/><data id="sv" expr="'#_internal'"/>{data}</datamodel>
 <state id="s0">
  <transition event="e1"{cond} target="s1"><script>mark('before')</script>{content}<script>mark('after')</script></transition>
  <transition event="e1" target="s1"><script>mark('fallback')</script></transition>
